@@ -95,6 +95,7 @@ def run_one(p):
     sys.modules["simlog"] = simlog
     root = None
     exc = ""
+    exc2 = None
     try:
         if p.get("files"):
             root = tempfile.mkdtemp(prefix="verifref-")
@@ -118,6 +119,15 @@ def run_one(p):
             exec(code, g, g)
         except BaseException as e:
             exc = norm(type(e).__name__)
+        exc2 = None
+        if p.get("after") is not None:
+            rec.log("--after--")
+            exc2 = ""
+            try:
+                code2 = compile(p["after"], "<after>", "exec", dont_inherit=True)
+                exec(code2, g, g)
+            except BaseException as e:
+                exc2 = norm(type(e).__name__)
         rec.closed = True
     finally:
         rec.closed = True
@@ -132,7 +142,10 @@ def run_one(p):
         builtins.__dict__.update(saved_builtins)
         if root:
             shutil.rmtree(root, ignore_errors=True)
-    return {"id": p["id"], "trace": rec.trace, "exc": exc}
+    res = {"id": p["id"], "trace": rec.trace, "exc": exc}
+    if exc2 is not None:
+        res["exc2"] = exc2
+    return res
 
 def main():
     sys.setrecursionlimit(400)
